@@ -64,6 +64,8 @@ def generate(rseed, tier, idx):
         f2 = gen.draw_features(g, C08_FEATURES, 0.3)
         ast2 = gen.gen_sheet(g, f2, settings, max_rules=4, tag="F2")
         names = g.sample(("a.css", "sub/b.css", "zz.css", "th\u00e8me.css"), 2)
+        if g.random() < 0.25 and "root-direct-color" not in feats and "root-direct-color" not in f2:
+            names = ["a.css", "sub/a.css"]  # the same base name in two directories (the report names files by base name)
         definer, user = (ast, ast2) if g.random() < 0.5 else (ast2, ast)
         definer["items"].insert(g.randrange(len(definer["items"]) + 1), {"t": "rule", "sel": g.choice((":root", "html")), "decls": [
             {"p": "--x-shared", "v": gen.spell(g, gen.rand_rgb(g))[0], "imp": ""}, {"p": "--undefined0", "v": gen.spell(g, gen.rand_rgb(g))[0], "imp": ""}]})
